@@ -110,6 +110,27 @@ Theorem C05_split_first_is_first :
 Proof. exact split_first_spec. Qed.
 Print Assumptions C05_split_first_is_first.
 
+(** the remaining observers of the lexer: with a look-ahead buffered (it is the first deliverable token),
+    peek_cursor_pos is its end and peek_parse_span the parse span as it will be after consuming it when
+    it starts at the cursor (the present parse span otherwise); without a look-ahead both are None *)
+Theorem C05_peek_observers :
+  forall m t lx ys b, Inv m t lx ys -> c_buf lx = Some b ->
+  exists x s, kept (c_filter lx) ys = x :: s /\ b = buf_of x
+    /\ c_peek_cursor_pos lx = Some (e_end x)
+    /\ c_peek_parse_span lx = Some (if pos_eqb (e_start x) (c_cur lx) then enclosing (c_ps lx) (e_end x) else c_parse_span lx).
+Proof. exact peek_observers. Qed.
+Print Assumptions C05_peek_observers.
+
+(** is_empty_with_filter looks ahead without changing what is deliverable, and answers "empty" only
+    when nothing is deliverable *)
+Theorem C05_is_empty_with_filter :
+  forall m, 1 <= tabw m -> forall t, wf_text t -> forall lx ys, Inv m t lx ys ->
+  exists b lx' ys', c_is_empty_with_filter lx = Ok (b, lx') /\ Inv m t lx' ys'
+    /\ kept (c_filter lx') ys' = kept (c_filter lx) ys /\ c_filter lx' = c_filter lx /\ c_rec lx' = c_rec lx
+    /\ (b = true -> kept (c_filter lx) ys = []).
+Proof. exact is_empty_with_filter_spec. Qed.
+Print Assumptions C05_is_empty_with_filter.
+
 (** the recorded finding, on the model: next; sublex; set_filter(None); next on "a b" delivers B,
     while next; set_filter(None); next delivers the whitespace token *)
 Theorem C05_eager_skip_refuted :
